@@ -21,6 +21,8 @@ struct G<'a> {
     /// parallel width of the factory picked last (byte lengths are scaled to it)
     cur_w: usize,
     cur_bs: usize,
+    /// index of the scenario within the run (stratified choices cycle with it, see `strat`)
+    idx: usize,
 }
 
 fn type_max(t: &str) -> u128 {
@@ -190,6 +192,11 @@ impl<'a> G<'a> {
             _ => json!({"rand": id}),
         }
     }
+    /// stratified choice: consecutive scenarios cycle through `v`, so that no element is starved by chance
+    /// (with a few hundred scenarios and 30-40 kinds a uniform draw leaves some kinds with one or two scenarios)
+    fn strat<T: Clone>(&mut self, v: &[T]) -> T {
+        v[self.idx % v.len()].clone()
+    }
     /// the padded one-shot to use: PKCS#7 half of the time, otherwise one of the other schemes of block-padding
     fn pad_how(&mut self) -> &'static str {
         if self.rng.coin() {
@@ -221,27 +228,38 @@ fn block_kind_dir(g: &mut G) -> (&'static str, &'static str) {
 /// pick a kind from `kinds`, favouring the ones whose code has hand-written parallel bodies:
 /// cbc/cfb decryption (direction forced), keystream cores, ciphertext stealing
 fn pick_kind(g: &mut G, kinds: &[String]) -> (String, Option<&'static str>) {
-    let r = g.rng.below(10);
+    // stratified over the scenario index: the branch cycles with idx mod 10, the element within with idx div 10
+    let r = g.idx % 10;
+    let k = g.idx / 10;
     if r < 2 {
         let c: Vec<&String> = kinds.iter().filter(|k| *k == "cbc" || *k == "cfb").collect();
         if !c.is_empty() {
-            return ((*g.rng.pick(&c)).clone(), Some("dec"));
+            return (c[k % c.len()].clone(), Some("dec"));
         }
     }
     if r < 4 {
         let c: Vec<&String> = kinds.iter().filter(|k| k.ends_with("core") || CTS_KINDS.contains(&k.as_str())).collect();
         if !c.is_empty() {
-            return ((*g.rng.pick(&c)).clone(), None);
+            return (c[(2 * k + r % 2) % c.len()].clone(), None);
         }
     }
     if r < 8 {
         // every block-level mode and direction evenly: a parallel body can be added to any of them
         let c: Vec<&String> = kinds.iter().filter(|k| BLOCK_KINDS.contains(&k.as_str())).collect();
         if !c.is_empty() {
-            return ((*g.rng.pick(&c)).clone(), None);
+            let j = 4 * k + (r - 4);
+            return (c[(j / 2) % c.len()].clone(), Some(if j % 2 == 0 { "enc" } else { "dec" }));
         }
     }
-    (g.rng.pick(kinds).clone(), None)
+    // the rest (byte-level wrappers, buffered types, ...), or everything if nothing is left
+    let rest: Vec<&String> = kinds
+        .iter()
+        .filter(|k| !(k.ends_with("core") || CTS_KINDS.contains(&k.as_str()) || BLOCK_KINDS.contains(&k.as_str())))
+        .collect();
+    if !rest.is_empty() {
+        return (rest[(2 * k + r % 2) % rest.len()].clone(), None);
+    }
+    (kinds[(2 * k + r % 2) % kinds.len()].clone(), None)
 }
 
 /// length of the padded message (for NoPadding and an unaligned message, which is refused: the message length)
@@ -262,8 +280,8 @@ fn is_block(k: &str) -> bool {
     BLOCK_KINDS.contains(&k)
 }
 
-pub fn generate(prop: &str, tier: &str, facs: &[Box<dyn Factory>], rng: &mut Rng, _i: usize) -> Value {
-    let mut g = G { facs, rng, thorough: tier == "thorough", cmds: vec![], cur_w: 1, cur_bs: 1 };
+pub fn generate(prop: &str, tier: &str, facs: &[Box<dyn Factory>], rng: &mut Rng, i: usize) -> Value {
+    let mut g = G { facs, rng, thorough: tier == "thorough", cmds: vec![], cur_w: 1, cur_bs: 1, idx: i };
     match prop {
         "C01" => gen_c01(&mut g),
         "C02" => gen_conf(&mut g, &["cbc", "pcbc", "ige"]),
@@ -416,7 +434,7 @@ fn gen_conf(g: &mut G, kinds: &[&str]) {
             let oneshot = (kind == "cfb" || kind == "cfb8") && g.rng.chance(1, 4);
             let n = g.nblocks(w, 9) * if kind == "cfb8" { 2 } else { 1 };
             if let Some(ln) = g.long_n() {
-                let ln = ln * if kind == "cfb8" { bs } else { 1 };
+                let ln = ln + usize::from(kind == "cfb8"); // (cfb8: that many BYTES - its steps are one byte each)
                 let cut = *g.rng.pick(&[0usize, 1, 255, 256, ln - 1]);
                 let (b1, b2) = (g.rng.coin(), g.rng.coin());
                 if cut > 0 {
@@ -589,7 +607,7 @@ fn gen_c07(g: &mut G) {
         return;
     }
     if let Some(ln) = g.long_n() {
-        let ln = ln * if kind == "cfb8" { bs } else { 1 };
+        let ln = ln + usize::from(kind == "cfb8"); // (cfb8: that many BYTES - its steps are one byte each)
         for (j, cuts) in [vec![ln], vec![256, ln - 256], vec![ln - 1, 1], vec![255, 2, ln - 257]].iter().enumerate() {
             let o = format!("o{j}");
             let fi = if j == 0 { f } else { *g.rng.pick(&fs) };
@@ -1009,7 +1027,11 @@ fn gen_c12(g: &mut G) {
 
 /// C13: contract violations are rejected without side effects; nothing panics
 fn gen_c13(g: &mut G) {
-    match g.rng.below(10) {
+    match g.rng.below(13) {
+        // the keystream generators' own territory (boundary IVs, far positions, cores and wrappers, seeks inside the
+        // keystream): nothing there violates a contract, so nothing may panic (debug-build overflow checks included)
+        10 | 11 => return gen_ctr(g, g.idx % 5 == 0),
+        12 => return gen_c10(g),
         0 | 1 => {
             // ciphertext stealing: short messages rejected, everything else accepted
             let kind = *g.rng.pick(&CTS_KINDS);
@@ -1108,7 +1130,7 @@ fn gen_c13(g: &mut G) {
             for k in CTS_KINDS {
                 kinds.push(k.to_string());
             }
-            let kind = g.rng.pick(&kinds).clone();
+            let kind = g.strat(&kinds);
             let f = g.pick_fac(&kind);
             let bs = g.bs(f);
             let kl = g.facs[f].keylen();
@@ -1129,7 +1151,7 @@ fn gen_c13(g: &mut G) {
                 kinds.push(core_of(k));
                 kinds.push(k.to_string());
             }
-            let kind = g.rng.pick(&kinds).clone();
+            let kind = g.strat(&kinds);
             let f = g.pick_fac(&kind);
             let dir = if kind.ends_with("core") || ctr_bits(&kind).is_some() || kind == "ofb" { "ks" } else if g.rng.coin() { "enc" } else { "dec" };
             g.new_obj("a", f, &kind, dir, 0, json!({"rand":0}), json!({"rand":0}), "inner");
@@ -1200,7 +1222,7 @@ fn gen_c13(g: &mut G) {
 
 /// C14: interchangeable front-ends
 fn gen_c14(g: &mut G) {
-    match g.rng.below(6) {
+    match g.idx % 8 {
         0 => {
             // buffered vs block-level vs one-shot CFB
             let f = g.pick_fac("cfb");
@@ -1288,11 +1310,12 @@ fn gen_c14(g: &mut G) {
             for k in CTR_KINDS.iter().chain(["belt", "ofb"].iter()) {
                 kinds.push(k.to_string());
             }
-            let kind = g.rng.pick(&kinds).clone();
+            let j = g.idx / 8;
+            let kind = kinds[(j / 2) % kinds.len()].clone();
             let f = g.pick_fac(&kind);
             let (bs, w) = (g.bs(f), g.w(f));
             let bytelevel = !is_block(&kind);
-            let dir = if ctr_bits(&kind).is_some() || kind == "ofb" { "ks" } else if g.rng.coin() { "enc" } else { "dec" };
+            let dir = if ctr_bits(&kind).is_some() || kind == "ofb" { "ks" } else if j % 2 == 0 { "enc" } else { "dec" };
             let iv = g.iv_for(&kind, 0);
             let vias = ["inner", "key_iv", "slices"];
             let n = if bytelevel { g.nbytes(bs, 3) } else { g.nblocks(w, 5) };
@@ -1319,7 +1342,7 @@ fn gen_c15(g: &mut G) {
     for _ in 0..3 {
         kinds.push("cfbbuf".into()); // the one byte-level type with error propagation of its own
     }
-    let kind = g.rng.pick(&kinds).clone();
+    let kind = g.strat(&kinds);
     let f = g.pick_fac(&kind);
     let (bs, w) = (g.bs(f), g.w(f));
     let iv = g.iv_for(&kind, 0);
@@ -1402,7 +1425,7 @@ fn gen_c16(g: &mut G) {
     for k in CTS_KINDS {
         kinds.push(k.to_string());
     }
-    let kind = g.rng.pick(&kinds).clone();
+    let kind = g.strat(&kinds);
     let f = g.pick_fac(&kind);
     let (bs, w) = (g.bs(f), g.w(f));
     let iv = g.iv_for(&kind, 0);
@@ -1568,7 +1591,7 @@ fn gen_c17(g: &mut G) {
         kinds.push(core_of(k));
         kinds.push(k.to_string());
     }
-    let kind = g.rng.pick(&kinds).clone();
+    let kind = g.strat(&kinds);
     // 8-byte windows need blocks of at least 8 bytes
     let f = loop {
         let f = g.pick_fac(&kind);
